@@ -21,6 +21,8 @@ Step == /\ n < MaxOps /\ n' = n + 1
            \/ \E v \in Slots, i \in 0 .. 2 : MutElem(v, i) /\ last' = <<"mutelem", 0, 0>>
            \/ \E s \in {<<>>, <<"e1">>, <<"e1", "e2">>} : ListSet("L", s) /\ last' = <<"listset", 0, 0>>
            \/ \E i \in 0 .. 1, e \in Elems : ListPut("L", i, e) /\ last' = <<"listput", 0, 0>>
+           \/ \E e \in Elems : Len(ls["L"]) < 3 /\ ListAppend("L", e) /\ last' = <<"listappend", 0, 0>>
+           \/ \E k \in 0 .. 1 : ListCut("L", k) /\ last' = <<"listcut", 0, 0>>
 Spec == Init /\ [][Step]_<<vs, ls, pads, mut, n, last>>
 \* an operation changes at most its target slot; list operations change no slot
 Independence == [][\A s \in Slots : (last'[2] # s) => vs'[s] = vs[s]]_<<vs, ls, pads, mut, n, last>>
